@@ -147,11 +147,50 @@ def gen_setvalue_window(rng):
     return dict(kind="setvalue-window", n=n, bw=bw, prec=1e-8, lam=1.5, ops=ops)
 
 
+def gen_band_extra(rng):
+    """as esolver/hsolver build it: n = NumNodes + NumCircProps with the bandwidth hint computed for the
+    nodes only; the extra (conductor) unknowns couple to arbitrary nodes far outside the band; nodes
+    tied (anti)periodically may be coupled to such an unknown"""
+    nn = rng.randint(6, 14)
+    nc = rng.randint(1, 2)
+    n = nn + nc
+    w = rng.randint(1, 3)
+    ops = []
+    for i in range(nn):
+        ops.append(("addto", abs(rnd(rng)) + 4.0, i, i))
+        for d in range(1, w + 1):
+            if i + d < nn and (d == 1 or rng.random() < 0.6):
+                ops.append(("addto", -abs(rnd(rng, 0.4)) - 0.05, i, i + d))
+    members = {}
+    for c in range(nc):
+        k = nn + c
+        ops.append(("addto", abs(rnd(rng)) + 6.0, k, k))
+        mem = rng.sample(range(nn), rng.randint(2, 4))
+        members[k] = mem
+        for m in mem:
+            ops.append(("addto", -abs(rnd(rng, 0.5)) - 0.1, m, k))
+    rng.shuffle(ops)
+    for i in range(n):
+        ops.append(("setb", i, rnd(rng)))
+    # tie a node coupled to an extra unknown with a distant node
+    k0 = nn
+    a = members[k0][0]
+    cand = [j for j in range(nn) if abs(j - a) > w + 1 and j not in members[k0]] or [j for j in range(nn) if j != a]
+    b = rng.choice(cand)
+    ops.append((rng.choice(["periodic", "antiperiodic"]), a, b))
+    ops.append(("dump",))
+    ops.append(("solve", 0))
+    ops.append(("dense",))
+    return dict(kind="band+conductor-unknowns", n=n, bw=w + 1, prec=1e-8, lam=1.5, ops=ops)
+
+
 def gen_scripts(rng, count):
     out = []
     for k in range(count):
         r = k % 10
-        if r < 3:
+        if r == 0:
+            s = gen_band_extra(rng)
+        elif r < 3:
             s = gen_putget(rng)
         elif r < 5:
             s = gen_spd(rng, False)
